@@ -94,6 +94,21 @@ def cases(rng, tier):
             pass
         fx = rng.choice([2.5, -2.5, 1e20, -7.99, 0.999, 123456789.5, -0.0])
         yield Case(program=render(bi('ㅈㅅ', VL.float_expr(fx))), tag='to-int', monitor='c11_expect', data=str(int(fx)))
+    # ㅈㅅ of a real whose integer part has more digits than its shortest decimal form shows (≥ 10^16): the result is the exact
+    # integer value of the double, truncated toward zero — never its printed digits (seeded change S11k truncated
+    # Decimal(str(x))); and ㅈㅅ(ㅅㅅ n) = n for exactly representable n of any size
+    import fractions as _fr
+    bigfl = [2.0 ** 60, 2.0 ** 64, 2.0 ** 70, 2.0 ** 55 * 3, 1e23, 3.0 ** 40, 1e16 + 2, 123456789012345678.0, 1.7976931348623157e308,
+             2.0 ** 1023, 9007199254740993.0 * 1024, 1e22, 1e100] + [rng.uniform(1, 2) * 2.0 ** rng.randint(53, 1020) for _ in range(12)]
+    for fx in bigfl:
+        for sg in (1, -1):
+            x = sg * fx
+            exact = int(_fr.Fraction(x))
+            yield Case(program=render(bi('ㅈㅅ', VL.float_expr(x))), tag='to-int-big-real', monitor='c11_expect', data=str(exact))
+            yield Case(program=render(bi('ㄴ', bi('ㅈㅅ', VL.float_expr(x)), lit(exact))), tag='to-int-big-real-eq', monitor='c11_expect', data='True')
+            yield Case(program=render(bi('ㅈㅅ', bi('ㅅㅅ', lit(exact)))), tag='to-int-of-real-of-int', monitor='c11_expect', data=str(exact))
+            yield Case(program=render(bi('ㄴㅁ', bi('ㅈㅅ', VL.float_expr(x)), lit(1000))), tag='to-int-big-real-rem', monitor='c11_expect',
+                       data=str(exact - tdiv(exact, 1000) * 1000))
     # n-ary ㄱ / ㄷ over mixed integer / real operands, with zero partial products and sums in every position: the result is
     # the left fold of the binary operation — in particular it widens to a real as soon as any operand is real, also after the
     # running product has become zero (seeded change S11i stopped at a zero partial product)
